@@ -1,4 +1,4 @@
-SPECIFICATION TSpec
+SPECIFICATION Spec
 CONSTANTS
   Blocking = FALSE
   Persistent = TRUE
@@ -9,20 +9,19 @@ CONSTANTS
   MsgTopic <- Topic1
   Subs = {"s1","s2"}
   SubTopic <- SubT1
-  PreSubs = {}
+  PreSubs = {"s1"}
   Republish <- NoRepub2
-  NackBudget = 6
+  NackBudget = 0
   DoClose = TRUE
-  Cancels = {"s1","s2"}
+  Cancels = {"s1"}
   LegacyHoldLocks = FALSE
   LegacyNilLog = FALSE
   PubRest <- NoRest
   MutBatchPersistFirst = FALSE
   MutDropLogEarly = FALSE
-  MutTearIsClosed = FALSE
+  MutTearIsClosed = TRUE
   MutBatchNoWait = FALSE
   MutPersistOutsideLock = FALSE
-CONSTRAINT HighWater
-POSTCONDITION Accepted
-INVARIANTS NoPanic OneUnsettled OneSenderPerPair
+INVARIANTS NoPanic OneUnsettled OneSenderPerPair NoSpuriousRedelivery OnlyOwnTopic BlockingReturn AfterClose NoStuckCall Complete
+
 CHECK_DEADLOCK FALSE
